@@ -1,1 +1,945 @@
-/-! C24 — property theorems (stub: nothing proved yet). -/
+import B6.Model.Collections
+import B6.Model.CollectionsExpr
+import B6.Spec.Collections
+import B6.Lemmas.Collections
+/-!
+# C24 — Collection functions compute what their documentation says
+
+Theorems about `B6.Model.Collections` (iterator-style models of api/functions/collections.go, map.go,
+collections.go, ingest.CollectionFeature) against the list reference definitions of `B6.Spec.Collections`.
+The model follows the code after the fixes C24-take-negative-count and C24-top-empty; the unrepaired
+behaviour is kept as `takeCountOld` / `topOld` for the two `_counterexample` theorems.
+-/
+namespace B6.Props.C24
+open B6.Model.Collections B6.Spec.Collections B6.Lemmas.Collections
+
+/-! ## one theorem per function -/
+
+/-- `collection` / an array collection yields its pairs in order and reports their number -/
+theorem collection_spec (items : List Item) (fin : End) :
+    drain Src.next (items.length + 1) ⟨items, fin⟩ = (items, finOf fin) ∧
+    (denote (.arr items)).count = some (items.length : Int) :=
+  ⟨drain_src fin items _ (Nat.lt_succ_self _), rfl⟩
+
+/-- `take c n` yields the first `n` items (none for `n ≤ 0`) — every inner collection, every `n` -/
+theorem take_spec (s : Src) (n : Int) :
+    drain takeNext (s.rest.length + 1) (s, n) = takeRef n s := by
+  obtain ⟨rest, fin⟩ := s
+  exact drain_take fin rest n _ (Nat.lt_succ_self _)
+
+theorem take_spec_list (items : List Item) (n : Int) :
+    drain takeNext (items.length + 1) (⟨items, .done⟩, n) = (items.take n.toNat, .done) := by
+  refine (take_spec ⟨items, .done⟩ n).trans ?_
+  simp only [takeRef, finOf]
+  split
+  · rfl
+  · next h => rw [List.take_of_length_le (by omega)]
+
+/-- `filter c p` — for every function `p` (an error or a non-bool answer ends the result with an error) -/
+theorem filter_spec (p : Val → Option Val) (s : Src) :
+    drain (filterNext p) (s.rest.length + 1) s = filterRef p s.fin s.rest := by
+  obtain ⟨rest, fin⟩ := s
+  exact drain_filter p fin rest _ (Nat.lt_succ_self _)
+
+theorem filterRef_list (q : Val → Bool) : ∀ items : List Item,
+    filterRef (fun v => some (.bool (q v))) .done items = (items.filter (fun it => q it.2), .done) := by
+  intro items
+  induction items with
+  | nil => rfl
+  | cons x xs ih =>
+    obtain ⟨k, v⟩ := x
+    cases hq : q v <;> simp [filterRef, hq, ih]
+
+/-- with a total boolean predicate this is `List.filter` -/
+theorem filter_spec_list (q : Val → Bool) (items : List Item) :
+    drain (filterNext fun v => some (.bool (q v))) (items.length + 1) ⟨items, .done⟩
+      = (items.filter (fun it => q it.2), .done) := by
+  exact (filter_spec _ ⟨items, .done⟩).trans (filterRef_list q items)
+
+/-- `map c f` — for every function `f` -/
+theorem map_spec (f : Val → Option Val) (s : Src) :
+    drain (mapNext f) (s.rest.length + 1) s = mapRef f s.fin s.rest := by
+  obtain ⟨rest, fin⟩ := s
+  exact drain_map f fin rest _ (Nat.lt_succ_self _)
+
+theorem mapRef_list (g : Val → Val) : ∀ items : List Item,
+    mapRef (fun v => some (g v)) .done items = (items.map (fun it => (it.1, g it.2)), .done) := by
+  intro items
+  induction items with
+  | nil => rfl
+  | cons x xs ih => obtain ⟨k, v⟩ := x; simp [mapRef, ih]
+
+/-- with a total function this is `List.map` on the values, keys unchanged -/
+theorem map_spec_list (g : Val → Val) (items : List Item) :
+    drain (mapNext fun v => some (g v)) (items.length + 1) ⟨items, .done⟩
+      = (items.map (fun it => (it.1, g it.2)), .done) := by
+  exact (map_spec _ ⟨items, .done⟩).trans (mapRef_list g items)
+
+/-- `map-items c g` — for every function `g` on (key, value) -/
+theorem map_items_spec (g : Val → Val → Option Item) (s : Src) :
+    drain (mapItemsNext g) (s.rest.length + 1) s = mapItemsRef g s.fin s.rest := by
+  obtain ⟨rest, fin⟩ := s
+  exact drain_mapItems g fin rest _ (Nat.lt_succ_self _)
+
+/-- `flatten`: the inner collections one after the other -/
+theorem flatten_spec (ofin : End) (ss : List Src) :
+    drain (flattenNext ofin) (srcTotal ss + 1) (ss, none) = flattenRef ofin ss :=
+  drain_flatten_none ofin ss _ (Nat.lt_succ_of_le (itemsTotal_le_srcTotal ss))
+
+theorem flattenRef_list : ∀ ls : List (List Item),
+    flattenRef .done (ls.map fun l => ⟨l, .done⟩) = (ls.flatten, .done) := by
+  intro ls
+  induction ls with
+  | nil => rfl
+  | cons l ls ih => simp [flattenRef, ih]
+
+/-- `join-missing b j`, drained, is the three-way merge `joinRef` — all inputs, sorted or not,
+comparison errors included -/
+theorem join_missing_spec (b j : Src) :
+    drain jmNext (b.rest.length + j.rest.length + 1)
+      { started := false, b := b, j := j, bcur := none, jcur := none }
+      = joinRef b.fin j.fin b.rest j.rest := by
+  obtain ⟨B, bfin⟩ := b
+  obtain ⟨J, jfin⟩ := j
+  exact drain_jm bfin jfin B J _ (Nat.lt_succ_self _)
+
+/-- `sum-by-key`: keys are distinct, and each key holds the (64-bit wrapped) sum of its values;
+non-int values are an error -/
+theorem sum_by_key_spec (items : List Item) (l : List (Val × Int)) (h : sumByKey items .done = some l) :
+    (l.map (·.1)).Nodup ∧
+    ∀ k, lookup k l = if k ∈ items.map (·.1) then some (wrap64 (sumFor k items)) else none := by
+  unfold sumByKey at h
+  rw [sumByKey_go] at h
+  split at h
+  · simp only [Option.some.injEq] at h
+    subst h
+    have := tallied_foldl (·.1) intDelta items [] [] (tallied_nil _ _)
+    simp only [List.nil_append] at this
+    refine ⟨this.1, ?_⟩
+    intro k
+    rw [this.2 k, sumFor_eq_weightFor]
+  · cases h
+
+theorem sum_by_key_error (items : List Item) :
+    sumByKey items .done = none ↔ ∃ it ∈ items, ∀ i, it.2 ≠ .int i := by
+  unfold sumByKey
+  rw [sumByKey_go]
+  cases hall : (items.all fun it => match it.2 with | .int _ => true | _ => false) with
+  | true =>
+    simp only [if_true]
+    constructor
+    · intro h; cases h
+    · intro ⟨it, hit, hne⟩
+      rw [List.all_eq_true] at hall
+      have := hall it hit
+      cases hv : it.2 with
+      | int i => exact absurd hv (hne i)
+      | float c => simp [hv] at this
+      | str s => simp [hv] at this
+      | fid t ns v => simp [hv] at this
+      | bool b => simp [hv] at this
+  | false =>
+    simp only [Bool.false_eq_true, if_false, true_iff]
+    rw [List.all_eq_false] at hall
+    obtain ⟨it, hit, hne⟩ := hall
+    refine ⟨it, hit, ?_⟩
+    intro i hi
+    rw [hi] at hne; simp at hne
+
+theorem countBy_spec (keyOf : Item → Val) (delta : Item → Int) (items : List Item) (l : List (Val × Int))
+    (h : countBy keyOf delta items .done = some l) :
+    (l.map (·.1)).Nodup ∧
+    ∀ k, lookup k l = if k ∈ items.map keyOf then some (wrap64 (weightFor keyOf delta k items)) else none := by
+  simp only [countBy, Option.some.injEq] at h
+  subst h
+  have := tallied_foldl keyOf delta items [] [] (tallied_nil _ _)
+  simp only [List.nil_append] at this
+  exact ⟨this.1, this.2⟩
+
+/-- `count-values`: how often each value occurs -/
+theorem count_values_spec (items : List Item) (l : List (Val × Int)) (h : countValues items .done = some l) :
+    (l.map (·.1)).Nodup ∧ ∀ v, lookup v l =
+      if v ∈ items.map (·.2) then some (wrap64 (weightFor (·.2) (fun _ => 1) v items)) else none :=
+  countBy_spec _ _ items l h
+
+/-- `count-keys`: how often each key occurs -/
+theorem count_keys_spec (items : List Item) (l : List (Val × Int)) (h : countKeys items .done = some l) :
+    (l.map (·.1)).Nodup ∧ ∀ k, lookup k l =
+      if k ∈ items.map (·.1) then some (wrap64 (weightFor (·.1) (fun _ => 1) k items)) else none :=
+  countBy_spec _ _ items l h
+
+/-- `count-valid-keys`: per key, the number of values that are not an invalid feature ID (the key appears
+even when that number is 0) -/
+theorem count_valid_keys_spec (items : List Item) (l : List (Val × Int))
+    (h : countValidKeys items .done = some l) :
+    (l.map (·.1)).Nodup ∧ ∀ k, lookup k l =
+      if k ∈ items.map (·.1) then some (wrap64 (weightFor (·.1) validDelta k items)) else none :=
+  countBy_spec _ _ items l h
+
+/-- `top c n`: for every priority queue that keeps container/heap's contract (`PQLaw`), every input whose
+values are all ints or all floats, and every `n` (zero and negative included), the result is the `n`
+greatest entries, greatest first (`IsTopOf`; ties leave open which of several equal entries is kept). -/
+theorem top_spec (pq : PQ) (law : PQLaw pq) (items : List Item) (n : Int) (out : List Item)
+    (h : top pq items .done n = .ok out) : IsTopOf n items out := by
+  cases items with
+  | nil =>
+    simp only [top, TopRes.ok.injEq] at h
+    subst h
+    exact ⟨[], by simp, by simp, by simp, by simp⟩
+  | cons x xs =>
+    obtain ⟨k, v⟩ := x
+    simp only [top] at h
+    cases hv : valNum v with
+    | none => simp [hv] at h
+    | some _ =>
+      simp only [hv] at h
+      cases hl : topLoop pq n v ((k, v) :: xs) pq.empty with
+      | none => simp [hl] at h
+      | some q =>
+        simp only [hl, TopRes.ok.injEq] at h
+        have hinv0 : TopInv n [] (law.elems pq.empty) [] := by
+          rw [law.empty]
+          exact ⟨by simp, by simp, by simp, by simp⟩
+        obtain ⟨D, hinv⟩ := topLoop_inv pq law n v ((k, v) :: xs) [] pq.empty [] q hinv0 hl
+        simp only [List.nil_append] at hinv
+        obtain ⟨o, ho, hperm, hsorted⟩ := popAll_spec pq law (pq.size q) q []
+          (by rw [law.size]; exact Nat.le_refl _)
+          (fun y hy => hinv.num y (hinv.perm.mem_iff.mp (List.mem_append_left D hy)))
+        rw [ho, List.append_nil] at h
+        subst h
+        refine ⟨D, ?_, ?_, hsorted, ?_⟩
+        · exact (List.Perm.append_right D hperm).trans hinv.perm
+        · rw [hperm.length_eq]; exact hinv.len
+        · intro r hr o' ho'
+          exact hinv.low r hr o' (hperm.mem_iff.mp ho')
+
+/-- `top` on values it cannot order (not int/float, or a mix) is an error, never a panic -/
+theorem top_never_panics (pq : PQ) (items : List Item) (fin : End) (n : Int) :
+    top pq items fin n ≠ .panic := by
+  unfold top
+  cases items with
+  | nil => cases fin <;> simp
+  | cons x xs =>
+    obtain ⟨k, v⟩ := x
+    simp only
+    split
+    · simp
+    · split
+      · simp
+      · cases fin <;> simp
+
+/-- `FindValue` on a sorted collection feature (binary search) answers like the linear scan -/
+theorem find_value_spec (keys vals : Array Val) (key : Val) (h : SearchOk keys key) :
+    findValue true keys vals key = scanFirst keys vals key := by
+  obtain ⟨hlo, hhi, hle⟩ := sortSearch_spec keys key h
+  simp only [findValue, if_true, scanFirst]
+  generalize hi : sortSearch keys.size (notLess keys key) = i at *
+  by_cases hin : i < keys.size
+  · cases he : eqAt keys key i with
+    | true =>
+      have : (List.range keys.size).find? (eqAt keys key) = some i := by
+        apply find?_range_first _ _ _ hin he
+        intro x hx
+        cases hex : eqAt keys key x with
+        | false => rfl
+        | true => have := h.eq_ge x hex; rw [hlo x hx] at this; cases this
+      simp [hin, he, this]
+    | false =>
+      have : (List.range keys.size).find? (eqAt keys key) = none := by
+        apply find?_range_none
+        intro x hx
+        by_cases hxi : x < i
+        · cases hex : eqAt keys key x with
+          | false => rfl
+          | true => have := h.eq_ge x hex; rw [hlo x hxi] at this; cases this
+        · exact h.gt_stays i x (by omega) hx (hhi i (Nat.le_refl _) hin) he
+      simp [hin, he, this]
+  · have : (List.range keys.size).find? (eqAt keys key) = none := by
+      apply find?_range_none
+      intro x hx
+      cases hex : eqAt keys key x with
+      | false => rfl
+      | true => have := h.eq_ge x hex; rw [hlo x (by omega)] at this; cases this
+    simp [hin, this]
+
+/-- the unsorted branch IS the linear scan -/
+theorem find_value_unsorted (keys vals : Array Val) (key : Val) :
+    findValue false keys vals key = scanFirst keys vals key := rfl
+
+theorem find_values_unsorted (keys vals : Array Val) (key : Val) :
+    findValues false keys vals key = scanAll keys vals key := rfl
+
+/-! ## compositions -/
+
+theorem takeRef_takeArg (n : Int) (s : Src) : takeRef (takeArg n) s = takeRef n s := by
+  have : (takeArg n).toNat = n.toNat := by unfold takeArg; split <;> omega
+  simp only [takeRef, this]
+
+theorem takeCount_takeArg (cnt : Option Int) (n : Int) :
+    takeCountRaw cnt (takeArg n) = cnt.map fun k => min k (max n 0) := by
+  cases cnt with
+  | none => rfl
+  | some c =>
+    simp only [takeCountRaw, takeArg, Option.map_some, Option.some.injEq]
+    split <;> split <;> omega
+
+mutual
+/-- **Every expression tree of lazy collection functions evaluates, in the iterator-style model, to what the
+list references say** (items, how the iteration ends, and the reported count). -/
+theorem denote_eq_spec : ∀ c : Co, denote c = specDen c
+  | .arr items => rfl
+  | .take c n => by
+    have ih := denote_eq_spec c
+    simp only [denote, specDen, ih]
+    cases h : (specDen c).src? with
+    | none => rfl
+    | some s => simp only [take_spec, takeRef_takeArg, takeCount_takeArg]
+  | .filter c p => by
+    have ih := denote_eq_spec c
+    simp only [denote, specDen, ih]
+    cases h : (specDen c).src? with
+    | none => rfl
+    | some s => simp only [filter_spec]
+  | .map c f => by
+    have ih := denote_eq_spec c
+    simp only [denote, specDen, ih]
+    cases h : (specDen c).src? with
+    | none => rfl
+    | some s => simp only [map_spec]
+  | .mapItems c g => by
+    have ih := denote_eq_spec c
+    simp only [denote, specDen, ih]
+    cases h : (specDen c).src? with
+    | none => rfl
+    | some s => simp only [map_items_spec]
+  | .flatten cs => by
+    have ih := denoteList_eq_spec cs
+    simp only [denote, specDen, ih]
+    cases h : specDenList cs with
+    | none => rfl
+    | some ss => simp only [flatten_spec]
+  | .join b j => by
+    have ihb := denote_eq_spec b
+    have ihj := denote_eq_spec j
+    simp only [denote, specDen, ihb, ihj]
+    cases hb : (specDen b).src? with
+    | none => rfl
+    | some sb =>
+      cases hj : (specDen j).src? with
+      | none => rfl
+      | some sj => simp only [join_missing_spec]
+theorem denoteList_eq_spec : ∀ cs : CoList, denoteList cs = specDenList cs
+  | .nil => rfl
+  | .cons c rest => by
+    have ih1 := denote_eq_spec c
+    have ih2 := denoteList_eq_spec rest
+    simp only [denoteList, specDenList, ih1, ih2]
+    cases (specDen c).src? <;> cases specDenList rest <;> rfl
+end
+
+/-! ## reported counts -/
+
+theorem mapRef_len (f : Val → Option Val) (fin : End) : ∀ xs : List Item,
+    (mapRef f fin xs).1.length ≤ xs.length ∧
+    ((mapRef f fin xs).2 = .done → fin = .done ∧ (mapRef f fin xs).1.length = xs.length) := by
+  intro xs
+  induction xs with
+  | nil => cases fin <;> simp [mapRef, finOf]
+  | cons x xs ih =>
+    obtain ⟨k, v⟩ := x
+    cases hf : f v with
+    | none => simp [mapRef, hf]
+    | some v' =>
+      simp only [mapRef, hf, List.length_cons]
+      refine ⟨by omega, ?_⟩
+      intro h
+      have := ih.2 h
+      exact ⟨this.1, by omega⟩
+
+theorem mapItemsRef_len (g : Val → Val → Option Item) (fin : End) : ∀ xs : List Item,
+    (mapItemsRef g fin xs).1.length ≤ xs.length ∧
+    ((mapItemsRef g fin xs).2 = .done → fin = .done ∧ (mapItemsRef g fin xs).1.length = xs.length) := by
+  intro xs
+  induction xs with
+  | nil => cases fin <;> simp [mapItemsRef, finOf]
+  | cons x xs ih =>
+    obtain ⟨k, v⟩ := x
+    cases hf : g k v with
+    | none => simp [mapItemsRef, hf]
+    | some kv =>
+      simp only [mapItemsRef, hf, List.length_cons]
+      refine ⟨by omega, ?_⟩
+      intro h
+      have := ih.2 h
+      exact ⟨this.1, by omega⟩
+
+theorem src?_eq {d : Den} {s : Src} (h : d.src? = some s) :
+    s.rest = d.items ∧ finOf s.fin = d.fin := by
+  unfold Den.src? at h
+  cases hf : d.fin with
+  | done => simp [hf, Fin.toEnd?] at h; subst h; simp [finOf]
+  | err => simp [hf, Fin.toEnd?] at h; subst h; simp [finOf]
+  | nofuel => simp [hf, Fin.toEnd?] at h
+
+/-- a reported count is never exceeded, and is exact when the iteration ends without an error -/
+theorem count_bound : ∀ (c : Co) (k : Int), (specDen c).count = some k →
+    ((specDen c).items.length : Int) ≤ k ∧
+    ((specDen c).fin = .done → ((specDen c).items.length : Int) = k)
+  | .arr items, k, h => by
+    simp only [specDen, Option.some.injEq] at h ⊢
+    subst h; simp
+  | .take c n, k, h => by
+    simp only [specDen] at h ⊢
+    cases hs : (specDen c).src? with
+    | none => simp [hs, outOfFuel] at h
+    | some s =>
+      simp only [hs] at h ⊢
+      cases hc : (specDen c).count with
+      | none => simp [hc] at h
+      | some k0 =>
+        simp only [hc, Option.map_some, Option.some.injEq] at h
+        obtain ⟨hle, heq⟩ := count_bound c k0 hc
+        obtain ⟨hr, hf⟩ := src?_eq hs
+        rw [← hr] at hle heq
+        simp only [takeRef]
+        split
+        · next hn =>
+          simp only [List.length_take]
+          refine ⟨by omega, fun _ => by omega⟩
+        · next hn =>
+          simp only
+          refine ⟨by omega, ?_⟩
+          intro hd
+          have := heq (by rw [← hf]; exact hd)
+          omega
+  | .filter c p, k, h => by
+    simp only [specDen] at h
+    cases hs : (specDen c).src? <;> simp [hs, outOfFuel] at h
+  | .map c f, k, h => by
+    simp only [specDen] at h ⊢
+    cases hs : (specDen c).src? with
+    | none => simp [hs, outOfFuel] at h
+    | some s =>
+      simp only [hs] at h ⊢
+      obtain ⟨hle, heq⟩ := count_bound c k h
+      obtain ⟨hr, hf⟩ := src?_eq hs
+      rw [← hr] at hle heq
+      obtain ⟨h1, h2⟩ := mapRef_len f.apply s.fin s.rest
+      refine ⟨by omega, ?_⟩
+      intro hd
+      obtain ⟨h3, h4⟩ := h2 hd
+      have := heq (by rw [← hf, h3]; rfl)
+      omega
+  | .mapItems c g, k, h => by
+    simp only [specDen] at h ⊢
+    cases hs : (specDen c).src? with
+    | none => simp [hs, outOfFuel] at h
+    | some s =>
+      simp only [hs] at h ⊢
+      obtain ⟨hle, heq⟩ := count_bound c k h
+      obtain ⟨hr, hf⟩ := src?_eq hs
+      rw [← hr] at hle heq
+      obtain ⟨h1, h2⟩ := mapItemsRef_len g.apply s.fin s.rest
+      refine ⟨by omega, ?_⟩
+      intro hd
+      obtain ⟨h3, h4⟩ := h2 hd
+      have := heq (by rw [← hf, h3]; rfl)
+      omega
+  | .flatten cs, k, h => by
+    simp only [specDen] at h
+    cases hs : specDenList cs <;> simp [hs, outOfFuel] at h
+  | .join b j, k, h => by
+    simp only [specDen] at h
+    cases hb : (specDen b).src? <;> cases hj : (specDen j).src? <;> simp [hb, hj, outOfFuel] at h
+
+/-- **count_agrees**: whenever a collection (any composition of the lazy functions) reports a count `k`,
+iterating it to the end yields exactly `k` items. -/
+theorem count_agrees (c : Co) (k : Int) (hc : (denote c).count = some k) (hd : (denote c).fin = .done) :
+    ((denote c).items.length : Int) = k := by
+  rw [denote_eq_spec] at hc hd ⊢
+  exact (count_bound c k hc).2 hd
+
+/-- the library function `count` (`b6.Count`) therefore returns the number of items -/
+theorem count_function_spec (c : Co) (hd : (denote c).fin = .done) :
+    goCount (denote c).count (denote c).items (denote c).fin = some ((denote c).items.length : Int) := by
+  cases hc : (denote c).count with
+  | none => simp [goCount, hd]
+  | some k => simp [goCount, count_agrees c k hc hd]
+
+/-- **Before the fix** `take` reported its argument as the count: `take c -1` on three items says −1 and
+yields nothing. -/
+theorem take_negative_count_counterexample :
+    takeCountOld (some 3) (-1) = some (-1) ∧
+    drain takeNext 4 (⟨[(.int 1, .int 10), (.int 2, .int 30), (.int 3, .int 20)], .done⟩, (-1 : Int)) = ([], .done) := by
+  decide
+
+/-- **Before the fix** `top` on an empty collection called `Len()` on a nil heap. -/
+theorem top_empty_counterexample : topOld goHeap [] .done 3 = .panic := by decide
+
+/-! ## termination: no expression runs out of fuel -/
+
+theorem finOf_ne (e : End) : finOf e ≠ .nofuel := by cases e <;> simp [finOf]
+
+theorem takeRef_fin (n : Int) (s : Src) : (takeRef n s).2 ≠ .nofuel := by
+  unfold takeRef; split
+  · simp
+  · exact finOf_ne _
+
+theorem mapRef_fin (f : Val → Option Val) (fin : End) : ∀ xs, (mapRef f fin xs).2 ≠ .nofuel := by
+  intro xs
+  induction xs with
+  | nil => exact finOf_ne _
+  | cons x xs ih => obtain ⟨k, v⟩ := x; cases hf : f v <;> simp [mapRef, hf, ih]
+
+theorem mapItemsRef_fin (g : Val → Val → Option Item) (fin : End) : ∀ xs, (mapItemsRef g fin xs).2 ≠ .nofuel := by
+  intro xs
+  induction xs with
+  | nil => exact finOf_ne _
+  | cons x xs ih => obtain ⟨k, v⟩ := x; cases hf : g k v <;> simp [mapItemsRef, hf, ih]
+
+theorem filterRef_fin (p : Val → Option Val) (fin : End) : ∀ xs, (filterRef p fin xs).2 ≠ .nofuel := by
+  intro xs
+  induction xs with
+  | nil => exact finOf_ne _
+  | cons x xs ih =>
+    obtain ⟨k, v⟩ := x
+    cases hp : p v with
+    | none => simp [filterRef, hp]
+    | some r =>
+      cases r with
+      | bool b => cases b <;> simp [filterRef, hp, ih]
+      | int i => simp [filterRef, hp]
+      | float c => simp [filterRef, hp]
+      | str s => simp [filterRef, hp]
+      | fid t ns v => simp [filterRef, hp]
+
+theorem flattenRef_fin (ofin : End) : ∀ ss, (flattenRef ofin ss).2 ≠ .nofuel := by
+  intro ss
+  induction ss with
+  | nil => exact finOf_ne _
+  | cons c cs ih => cases hc : c.fin <;> simp [flattenRef, hc, ih]
+
+theorem joinRef_fin (bfin jfin : End) : ∀ B J, (joinRef bfin jfin B J).2 ≠ .nofuel := by
+  intro B J
+  fun_induction joinRef bfin jfin B J <;> simp_all
+
+mutual
+theorem specDen_fin : ∀ c : Co, (specDen c).fin ≠ .nofuel
+  | .arr items => by simp [specDen]
+  | .take c n => by
+    have ih := specDen_fin c
+    simp only [specDen]
+    cases hs : (specDen c).src? with
+    | none =>
+      exfalso; unfold Den.src? at hs
+      cases hf : (specDen c).fin <;> simp_all [Fin.toEnd?]
+    | some s => exact takeRef_fin n s
+  | .filter c p => by
+    have ih := specDen_fin c
+    simp only [specDen]
+    cases hs : (specDen c).src? with
+    | none =>
+      exfalso; unfold Den.src? at hs
+      cases hf : (specDen c).fin <;> simp_all [Fin.toEnd?]
+    | some s => exact filterRef_fin _ _ _
+  | .map c f => by
+    have ih := specDen_fin c
+    simp only [specDen]
+    cases hs : (specDen c).src? with
+    | none =>
+      exfalso; unfold Den.src? at hs
+      cases hf : (specDen c).fin <;> simp_all [Fin.toEnd?]
+    | some s => exact mapRef_fin _ _ _
+  | .mapItems c g => by
+    have ih := specDen_fin c
+    simp only [specDen]
+    cases hs : (specDen c).src? with
+    | none =>
+      exfalso; unfold Den.src? at hs
+      cases hf : (specDen c).fin <;> simp_all [Fin.toEnd?]
+    | some s => exact mapItemsRef_fin _ _ _
+  | .flatten cs => by
+    have ih := specDenList_some cs
+    simp only [specDen]
+    cases hs : specDenList cs with
+    | none => exact absurd hs ih
+    | some ss => exact flattenRef_fin _ _
+  | .join b j => by
+    have ihb := specDen_fin b
+    have ihj := specDen_fin j
+    simp only [specDen]
+    cases hb : (specDen b).src? with
+    | none =>
+      exfalso; unfold Den.src? at hb
+      cases hf : (specDen b).fin <;> simp_all [Fin.toEnd?]
+    | some sb =>
+      cases hj : (specDen j).src? with
+      | none =>
+        exfalso; unfold Den.src? at hj
+        cases hf : (specDen j).fin <;> simp_all [Fin.toEnd?]
+      | some sj => exact joinRef_fin _ _ _ _
+theorem specDenList_some : ∀ cs : CoList, specDenList cs ≠ none
+  | .nil => by simp [specDenList]
+  | .cons c rest => by
+    have ih1 := specDen_fin c
+    have ih2 := specDenList_some rest
+    simp only [specDenList]
+    cases hs : (specDen c).src? with
+    | none =>
+      exfalso; unfold Den.src? at hs
+      cases hf : (specDen c).fin <;> simp_all [Fin.toEnd?]
+    | some s =>
+      cases hr : specDenList rest with
+      | none => exact absurd hr ih2
+      | some ss => simp
+end
+
+/-- **Termination**: the fuel the model hands to every loop suffices — no composition ever reports `nofuel`. -/
+theorem denote_terminates (c : Co) : (denote c).fin ≠ .nofuel := by
+  rw [denote_eq_spec]; exact specDen_fin c
+
+/-! ## join-missing on key-sorted inputs -/
+
+theorem mergeRef_nil_right (lt : Val → Val → Bool) : ∀ B, mergeRef lt B [] = B
+  | [] => by simp [mergeRef]
+  | _ :: _ => by simp [mergeRef]
+
+theorem mergeRef_nil_left (lt : Val → Val → Bool) (J : List Item) : mergeRef lt [] J = J := by
+  simp [mergeRef]
+
+/-- base head goes first when nothing in `F` is below it -/
+theorem mergeRef_head (lt : Val → Val → Bool) (b : Item) (bs F : List Item)
+    (h : ∀ x ∈ F, lt x.1 b.1 = false) : mergeRef lt (b :: bs) F = b :: mergeRef lt bs F := by
+  cases F with
+  | nil => simp [mergeRef, mergeRef_nil_right]
+  | cons x F' =>
+    have := h x (List.mem_cons_self ..)
+    simp [mergeRef, this]
+
+/-- **join-missing, key-sorted inputs**: the result is the ordinary merge of `base` with those entries of
+`joined` whose key does not occur in `base`. -/
+theorem join_missing_sorted (S : Val → Prop) (lt : Val → Val → Bool) (ord : KeyOrder S lt) :
+    ∀ (B J : List Item), (∀ x ∈ B, S x.1) → (∀ x ∈ J, S x.1) → KeySorted lt B → KeySorted lt J →
+      joinRef .done .done B J = (mergeRef lt B (J.filter (absentFrom B)), .done) := by
+  intro B
+  induction B with
+  | nil =>
+    intro J _ hSJ _ hsJ
+    induction J with
+    | nil => simp [joinRef, mergeRef]
+    | cons j js ih =>
+      have hs : KeySorted lt js := List.Pairwise.of_cons hsJ
+      have := ih (fun x hx => hSJ x (List.mem_cons_of_mem _ hx)) hs
+      simp only [mergeRef_nil_left] at this ⊢
+      simp [joinRef, this, absentFrom]
+  | cons b bs ihB =>
+    intro J hSB hSJ hsB hsJ
+    induction J with
+    | nil =>
+      have := ihB [] (fun x hx => hSB x (List.mem_cons_of_mem _ hx)) (by simp) (List.Pairwise.of_cons hsB)
+        (by simp [KeySorted])
+      simp [joinRef, this, mergeRef, mergeRef_nil_right]
+    | cons j js ihJ =>
+      have hSb : S b.1 := hSB b (List.mem_cons_self ..)
+      have hSj : S j.1 := hSJ j (List.mem_cons_self ..)
+      have hSbs : ∀ x ∈ bs, S x.1 := fun x hx => hSB x (List.mem_cons_of_mem _ hx)
+      have hSjs : ∀ x ∈ js, S x.1 := fun x hx => hSJ x (List.mem_cons_of_mem _ hx)
+      have hsbs : KeySorted lt bs := List.Pairwise.of_cons hsB
+      have hsjs : KeySorted lt js := List.Pairwise.of_cons hsJ
+      have hbmin : ∀ x ∈ bs, lt x.1 b.1 = false := (List.pairwise_cons.mp hsB).1
+      have hjmin : ∀ x ∈ js, lt x.1 j.1 = false := (List.pairwise_cons.mp hsJ).1
+      have ihJ' := ihJ hSjs hsjs
+      by_cases heq : j.1 = b.1
+      · -- equal keys: the joined entry is dropped
+        have he : goEqual j.1 b.1 = some true := by rw [ord.equal _ _ hSj hSb]; simp [heq]
+        have hab : absentFrom (b :: bs) j = false := by simp [absentFrom, heq]
+        simp only [joinRef, he, ihJ', List.filter_cons, hab]
+        simp
+      · have he : goEqual j.1 b.1 = some false := by rw [ord.equal _ _ hSj hSb]; simp [heq]
+        cases hl : lt j.1 b.1 with
+        | true =>
+          -- joined key below the base head: it is absent from base and goes first
+          have hlj : goLess j.1 b.1 = some true := by rw [ord.less _ _ hSj hSb, hl]
+          have hab : absentFrom (b :: bs) j = true := by
+            simp only [absentFrom, List.all_cons, Bool.and_eq_true, decide_eq_true_eq, List.all_eq_true]
+            refine ⟨fun e => heq e.symm, ?_⟩
+            intro x hx e
+            have h1 := hbmin x hx
+            rw [e, hl] at h1; cases h1
+          simp only [joinRef, he, hlj, ihJ', List.filter_cons, hab, if_true, mergeRef, hl]
+        | false =>
+          -- base head first; no joined key can equal it any more
+          have hlj : goLess j.1 b.1 = some false := by rw [ord.less _ _ hSj hSb, hl]
+          have hbj : lt b.1 j.1 = true := by
+            rcases ord.total j.1 b.1 hSj hSb with h | h | h
+            · rw [hl] at h; cases h
+            · exact absurd h heq
+            · exact h
+          have hall : ∀ x ∈ j :: js, S x.1 ∧ lt b.1 x.1 = true := by
+            intro x hx
+            have hSx := hSJ x hx
+            refine ⟨hSx, ?_⟩
+            rcases List.mem_cons.mp hx with e | hx'
+            · rw [e]; exact hbj
+            · have hxj := hjmin x hx'
+              rcases ord.total j.1 x.1 hSj (hSJ x hx) with h | h | h
+              · exact ord.trans _ _ _ hSb hSj hSx hbj h
+              · rw [← h]; exact hbj
+              · rw [hxj] at h; cases h
+          have hfilter : (j :: js).filter (absentFrom (b :: bs)) = (j :: js).filter (absentFrom bs) := by
+            apply List.filter_congr
+            intro x hx
+            obtain ⟨hSx, hbx⟩ := hall x hx
+            have : b.1 ≠ x.1 := by
+              intro e; rw [e, ord.irrefl _ hSx] at hbx; cases hbx
+            simp [absentFrom, this]
+          have hge : ∀ x ∈ (j :: js).filter (absentFrom bs), lt x.1 b.1 = false := by
+            intro x hx
+            obtain ⟨hSx, hbx⟩ := hall x (List.mem_filter.mp hx).1
+            cases hxb : lt x.1 b.1 with
+            | false => rfl
+            | true =>
+              have := ord.trans _ _ _ hSb hSx hSb hbx hxb
+              rw [ord.irrefl _ hSb] at this; cases this
+          have ih := ihB (j :: js) hSbs hSJ hsbs hsJ
+          simp only [joinRef, he, hlj, ih]
+          rw [hfilter, mergeRef_head lt b bs _ hge]
+
+/-- int keys with the order of `b6.Less` form a `KeyOrder` (so the theorem above is not vacuous) -/
+def isInt : Val → Prop
+  | .int _ => True
+  | _ => False
+
+def intLt : Val → Val → Bool
+  | .int x, .int y => decide (x < y)
+  | _, _ => false
+
+theorem intKeyOrder : KeyOrder isInt intLt where
+  less := by
+    intro a b ha hb
+    cases a <;> cases b <;> simp_all [isInt, goLess, intLt]
+  equal := by
+    intro a b ha hb
+    cases a <;> cases b <;> simp_all [isInt, goEqual]
+  irrefl := by
+    intro a ha
+    cases a <;> simp_all [isInt, intLt]
+  trans := by
+    intro a b c ha hb hc
+    cases a <;> cases b <;> cases c <;> simp_all [isInt, intLt]
+    omega
+  total := by
+    intro a b ha hb
+    cases a <;> cases b <;> simp_all [isInt, intLt]
+    omega
+
+example : joinRef .done .done [(.int 1, .str "b1"), (.int 3, .str "b3")]
+    [(.int 0, .str "j0"), (.int 1, .str "j1"), (.int 2, .str "j2"), (.int 4, .str "j4")]
+    = ([(.int 0, .str "j0"), (.int 1, .str "b1"), (.int 2, .str "j2"), (.int 3, .str "b3"), (.int 4, .str "j4")], .done) := by
+  simp [joinRef, goEqual, goLess]
+
+/-! ## FindValues, and the int instance of the search hypotheses -/
+
+theorem filter_eq_takeWhile_range' (P : Nat → Bool) : ∀ (m a : Nat),
+    (∀ x y, a ≤ y → y ≤ x → x < a + m → P x = true → P y = true) →
+    (List.range' a m).filter P = (List.range' a m).takeWhile P := by
+  intro m
+  induction m with
+  | zero => intro a _; rfl
+  | succ m ih =>
+    intro a hcl
+    rw [List.range'_succ]
+    cases hp : P a with
+    | true =>
+      simp only [List.filter_cons, hp, if_true, List.takeWhile_cons]
+      rw [ih (a + 1) (by intro x y hy hyx hx hpx; exact hcl x y (by omega) hyx (by omega) hpx)]
+    | false =>
+      simp only [List.filter_cons, hp, List.takeWhile_cons]
+      simp only [Bool.false_eq_true, if_false, List.filter_eq_nil_iff, List.mem_range'_1]
+      intro x hx hpx
+      have := hcl x a (Nat.le_refl _) (by omega) (by omega) hpx
+      rw [hp] at this; cases this
+
+theorem collectRun_eq (keys vals : Array Val) (key : Val) (hv : keys.size ≤ vals.size) :
+    ∀ (fuel i : Nat), keys.size - i ≤ fuel →
+      collectRun keys vals key fuel i =
+        ((List.range' i (keys.size - i)).takeWhile (eqAt keys key)).filterMap (vals[·]?) := by
+  intro fuel
+  induction fuel with
+  | zero =>
+    intro i h
+    have : keys.size - i = 0 := by omega
+    simp [collectRun, this]
+  | succ fuel ih =>
+    intro i h
+    by_cases hi : i < keys.size
+    · have e : keys.size - i = (keys.size - (i + 1)) + 1 := by omega
+      rw [e, List.range'_succ]
+      cases he : eqAt keys key i with
+      | false => simp [collectRun, he]
+      | true =>
+        have hvi : i < vals.size := by omega
+        have hsome : vals[i]? = some vals[i] := by simp [hvi]
+        simp only [collectRun, hi, he, decide_true, Bool.and_self, if_true, hsome,
+          List.takeWhile_cons, List.filterMap_cons]
+        rw [ih (i + 1) (by omega)]
+    · have : keys.size - i = 0 := by omega
+      simp [collectRun, hi, this]
+
+/-- `FindValues` on a sorted collection feature answers like the linear scan -/
+theorem find_values_spec (keys vals : Array Val) (key : Val) (h : SearchOk keys key)
+    (hv : keys.size ≤ vals.size) :
+    findValues true keys vals key = scanAll keys vals key := by
+  obtain ⟨hlo, hhi, hle⟩ := sortSearch_spec keys key h
+  simp only [findValues, if_true, scanAll]
+  generalize hi : sortSearch keys.size (notLess keys key) = i at *
+  rw [collectRun_eq keys vals key hv keys.size i (by omega)]
+  congr 1
+  have hsplit : List.range keys.size = List.range' 0 i ++ List.range' i (keys.size - i) := by
+    rw [List.range_eq_range']
+    have e : keys.size = i + (keys.size - i) := by omega
+    conv => lhs; rw [e]
+    rw [← List.range'_append_1]; simp
+  rw [hsplit, List.filter_append]
+  have h1 : (List.range' 0 i).filter (eqAt keys key) = [] := by
+    simp only [List.filter_eq_nil_iff, List.mem_range'_1]
+    intro x hx hex
+    have := h.eq_ge x hex
+    rw [hlo x (by omega)] at this; cases this
+  rw [h1, List.nil_append]
+  symm
+  apply filter_eq_takeWhile_range'
+  intro x y hy hyx hx hex
+  have hxn : x < keys.size := by omega
+  -- the first index of the run is an equal key, or no key is equal
+  have hi0 : eqAt keys key i = true := by
+    cases hei : eqAt keys key i with
+    | true => rfl
+    | false =>
+      have := h.gt_stays i x (by omega) hxn (hhi i (Nat.le_refl _) (by omega)) hei
+      rw [hex] at this; cases this
+  exact h.between i y x hy hyx hxn hi0 hex
+
+/-- a probe no int key compares with: every comparison is an error, nothing is found either way -/
+theorem searchOk_int_other (ks : List Int) (key : Val)
+    (hl : ∀ x : Int, goLess (.int x) key = none) (he : ∀ x : Int, goEqual (.int x) key = none) :
+    SearchOk (ks.map Val.int).toArray key := by
+  have hE : ∀ i, eqAt (ks.map Val.int).toArray key i = false := by
+    intro i
+    unfold eqAt
+    cases hk : (ks.map Val.int).toArray[i]? with
+    | none => rfl
+    | some k =>
+      have : ∃ x, k = .int x := by
+        have := List.mem_of_getElem? (l := ks.map Val.int) (by simpa using hk)
+        simp at this; obtain ⟨a, _, e⟩ := this; exact ⟨a, e.symm⟩
+      obtain ⟨x, e⟩ := this
+      simp [e, he x]
+  have hL : ∀ i, notLess (ks.map Val.int).toArray key i = true := by
+    intro i
+    unfold notLess
+    cases hk : (ks.map Val.int).toArray[i]? with
+    | none => rfl
+    | some k =>
+      have : ∃ x, k = .int x := by
+        have := List.mem_of_getElem? (l := ks.map Val.int) (by simpa using hk)
+        simp at this; obtain ⟨a, _, e⟩ := this; exact ⟨a, e.symm⟩
+      obtain ⟨x, e⟩ := this
+      simp [e, hl x]
+  exact ⟨fun _ j _ _ _ => hL j, fun i h => (by rw [hE i] at h; cases h), fun _ j _ _ _ _ => hE j,
+    fun i _ _ _ _ _ h _ => (by rw [hE i] at h; cases h)⟩
+
+def kth (ks : List Int) (i : Nat) : Int := (ks[i]?).getD 0
+
+/-- int keys in ascending order, any probe: the hypotheses of the two search theorems hold -/
+theorem searchOk_int (ks : List Int) (hs : ks.Pairwise (· ≤ ·)) (key : Val) :
+    SearchOk (ks.map Val.int).toArray key := by
+  have hget : ∀ i, i < ks.length → (ks.map Val.int).toArray[i]? = some (.int (kth ks i)) := by
+    intro i hi
+    simp [hi, kth]
+  have hsz : (ks.map Val.int).toArray.size = ks.length := by simp
+  have hle : ∀ i j, i ≤ j → j < ks.length → kth ks i ≤ kth ks j := by
+    intro i j hij hj
+    by_cases e : i = j
+    · subst e; exact Int.le_refl _
+    · have := List.pairwise_iff_getElem.mp hs i j (by omega) hj (by omega)
+      simpa [kth, show i < ks.length by omega, hj] using this
+  cases key with
+  | int p =>
+    have hL : ∀ i, i < ks.length →
+        notLess (ks.map Val.int).toArray (.int p) i = decide (¬ kth ks i < p) := by
+      intro i hi; simp only [notLess, hget i hi, goLess, Option.getD_some]
+      by_cases h : kth ks i < p <;> simp [h]
+    have hE : ∀ i, i < ks.length →
+        eqAt (ks.map Val.int).toArray (.int p) i = decide (kth ks i = p) := by
+      intro i hi; simp only [eqAt, hget i hi, goEqual, Option.getD_some]
+    have hEout : ∀ i, ¬ i < ks.length → eqAt (ks.map Val.int).toArray (.int p) i = false := by
+      intro i hi; simp [eqAt, hi]
+    refine ⟨?_, ?_, ?_, ?_⟩
+    · intro i j hij hj hi
+      rw [hsz] at hj
+      rw [hL i (by omega)] at hi
+      rw [hL j hj]
+      have := hle i j hij hj
+      simp only [decide_eq_true_eq] at hi ⊢; omega
+    · intro i hi
+      by_cases hil : i < ks.length
+      · rw [hE i hil] at hi; rw [hL i hil]; simp only [decide_eq_true_eq] at hi ⊢; omega
+      · rw [hEout i hil] at hi; cases hi
+    · intro i j hij hj hi he
+      rw [hsz] at hj
+      rw [hL i (by omega)] at hi
+      rw [hE i (by omega)] at he
+      rw [hE j hj]
+      have := hle i j hij hj
+      simp only [decide_eq_true_eq, decide_eq_false_iff_not] at hi he ⊢; omega
+    · intro i x j hix hxj hj hi hej
+      rw [hsz] at hj
+      rw [hE i (by omega)] at hi
+      rw [hE j hj] at hej
+      rw [hE x (by omega)]
+      have h1 := hle i x hix (by omega)
+      have h2 := hle x j hxj hj
+      simp only [decide_eq_true_eq] at hi hej ⊢; omega
+  | float c => exact searchOk_int_other ks (.float c) (by simp [goLess]) (by simp [goEqual])
+  | str s => exact searchOk_int_other ks (.str s) (by simp [goLess]) (by simp [goEqual])
+  | fid t ns v => exact searchOk_int_other ks (.fid t ns v) (by simp [goLess]) (by simp [goEqual])
+  | bool b => exact searchOk_int_other ks (.bool b) (by simp [goLess]) (by simp [goEqual])
+
+/-! ## non-vacuity: concrete values on which the theorems above apply and compute -/
+
+def exItems : List Item := [(.int 1, .int 10), (.int 2, .int 30), (.int 3, .int 20), (.int 4, .int 30)]
+
+-- the law of `top_spec` is inhabited (`listPQLaw`), and both queues pick the two greatest, greatest first
+example : top listPQ exItems .done 2 = .ok [(.int 2, .int 30), (.int 4, .int 30)] := by decide
+example : top goHeap exItems .done 2 = .ok [(.int 2, .int 30), (.int 4, .int 30)] := by decide
+example : IsTopOf 2 exItems [(.int 2, .int 30), (.int 4, .int 30)] :=
+  top_spec listPQ listPQLaw exItems 2 _ (by decide)
+example : top goHeap [] .done 3 = .ok [] := by decide
+example : top goHeap exItems .done (-1) = .ok [] := by decide
+example : top goHeap [(.int 1, .int 1), (.int 2, .float 5)] .done 1 = .error := by decide
+-- take: counts and items agree also for negative and oversized arguments
+example : denote (.take (.arr exItems) (-1)) = ⟨[], .done, some 0⟩ := by decide
+example : denote (.take (.arr exItems) 9) = ⟨exItems, .done, some 4⟩ := by decide
+example : (denote (.take (.map (.arr exItems) (.addc 1)) 3)).count = some 3 := by decide
+-- an error inside map ends the iteration where it happens; the reported count is not reached
+example : denote (.map (.arr [(.int 1, .int 10), (.int 2, .str "x"), (.int 3, .int 5)]) (.addc 1))
+    = ⟨[(.int 1, .int 11)], .err, some 3⟩ := by decide
+example : denote (.filter (.arr exItems) (.gtc (.int 15)))
+    = ⟨[(.int 2, .int 30), (.int 3, .int 20), (.int 4, .int 30)], .done, none⟩ := by decide
+example : denote (.flatten (.cons (.arr exItems) (.cons (.arr []) (.cons (.take (.arr exItems) 1) .nil))))
+    = ⟨exItems ++ [(.int 1, .int 10)], .done, none⟩ := by decide
+example : sumByKey [(.str "a", .int 100), (.str "b", .int 50), (.str "a", .int 200)] .done
+    = some [(.str "a", 300), (.str "b", 50)] := by decide
+example : countValidKeys [(.int 1, .fid 0 "ns" 7), (.int 1, .fid 4 "" 0), (.int 2, .fid 4 "" 0)] .done
+    = some [(.int 1, 1), (.int 2, 0)] := by decide
+-- FindValue: binary search and scan agree on a sorted feature with duplicate keys
+example : findValue true #[.int 1, .int 1, .int 2, .int 3] #[.str "a", .str "a2", .str "b", .str "c"] (.int 1)
+    = some (.str "a") := by decide
+example : SearchOk ([1, 1, 2, 3].map Val.int).toArray (.int 1) := searchOk_int _ (by decide) _
+example : findValues true #[.int 1, .int 1, .int 2, .int 3] #[.str "a", .str "a2", .str "b", .str "c"] (.int 1)
+    = [.str "a", .str "a2"] := by decide
+-- b6.Less is not symmetric in its error behaviour: int vs float is an error, float vs int is not
+example : goLess (.int 1) (.float 0) = none ∧ goLess (.float 0) (.int 1) = some true := by decide
+
+end B6.Props.C24
